@@ -78,7 +78,7 @@ func buildForms(env *zygo.Zlisp, tier string) (*listStream, map[string]string) {
 	}
 	pool2 := poolWide
 	if tier != "thorough" {
-		pool2 = poolWide[:32]
+		pool2 = poolWide[:24]
 	}
 	for _, h := range heads {
 		tag := "forms:" + h
@@ -102,6 +102,18 @@ func buildForms(env *zygo.Zlisp, tier string) (*listStream, map[string]string) {
 			}
 		}
 	}
+	// re-binding an already bound symbol with a value of another kind (two forms in one text)
+	for _, v := range valPool {
+		s.add("(def a 1) (def a "+v+")", "", "forms:rebind")
+		s.add("(def a "+v+") (def a 1)", "", "forms:rebind")
+		s.add("(def a "+v+") (set a 1)", "", "forms:rebind")
+		s.add("(def a 1) (set a "+v+")", "", "forms:rebind")
+		s.add("(def a ["+v+"]) (def a [1])", "", "forms:rebind")
+		s.add("(def a 1) (def a ["+v+"])", "", "forms:rebind")
+		for _, w := range valPool {
+			s.add("(def a "+v+") (def a "+w+")", "", "forms:rebind")
+		}
+	}
 	// the same heads written with reader sugar and at the top level of a text
 	for _, a := range poolWide {
 		for _, pre := range []string{"%", "^", "~", "~@", "^~", "^~@", "^%", "%^"} {
@@ -117,27 +129,27 @@ func buildForms(env *zygo.Zlisp, tier string) (*listStream, map[string]string) {
 
 // names never called: they block, sleep, exit, run commands or touch the file system
 var builtinSkip = map[string]string{
-	"exit":       "ends the process by design",
-	"system":     "runs a shell command",
-	"sys":        "runs a shell command",
-	"source":     "reads a file",
-	"slurpf":     "reads a file",
-	"writef":     "writes a file",
-	"owritef":    "writes a file",
-	"save":       "writes a file",
-	"bsave":      "writes a file",
-	"bload":      "reads a file",
-	"setenv":     "changes the process environment",
-	"import":     "reads files",
-	"req":        "reads files",
-	"<!":         "blocks on a channel (covered by the chan-recv probes)",
-	"send":       "blocks on a channel (covered by the chan-send probe)",
-	"timeit":     "runs its argument many times against the wall clock",
-	"stop":       "returns the stop error by design",
-	"infix":      "covered by the token and forms streams",
-	"_ls":        "prints the scope stack",
-	"dump":       "prints the stack",
-	"_closdump":  "prints closures",
+	"exit":              "ends the process by design",
+	"system":            "runs a shell command",
+	"sys":               "runs a shell command",
+	"source":            "reads a file",
+	"slurpf":            "reads a file",
+	"writef":            "writes a file",
+	"owritef":           "writes a file",
+	"save":              "writes a file",
+	"bsave":             "writes a file",
+	"bload":             "reads a file",
+	"setenv":            "changes the process environment",
+	"import":            "reads files",
+	"req":               "reads files",
+	"<!":                "blocks on a channel (covered by the chan-recv probes)",
+	"send":              "blocks on a channel (covered by the chan-send probe)",
+	"timeit":            "runs its argument many times against the wall clock",
+	"stop":              "returns the stop error by design",
+	"infix":             "covered by the token and forms streams",
+	"_ls":               "prints the scope stack",
+	"dump":              "prints the stack",
+	"_closdump":         "prints closures",
 	"packageScopeStack": "prints",
 }
 
@@ -171,7 +183,7 @@ func buildBuiltins(env *zygo.Zlisp, tier string) (*listStream, map[string]string
 	names, skipped := builtinNames(env)
 	pool2, pool3 := valPool, valPoolSmall
 	if tier != "thorough" {
-		pool2, pool3 = valPool[:16], valPoolSmall[:5]
+		pool2, pool3 = valPool[:13], valPoolSmall[:4]
 	}
 	for _, n := range names {
 		tag := "builtins:" + n
